@@ -26,6 +26,33 @@ fn numbers(v: &Variable, out: &mut Vec<Value>) {
     }
 }
 
+/// Equality without the library's own `==` (which is tolerant on numbers and the thing under test): integers digit for digit,
+/// doubles within the 2 units in the last place C08 grants the JSON parser, strings / order / keys exactly.
+fn strict_eq(a: &Variable, b: &Variable) -> bool {
+    match (a, b) {
+        (Variable::Null, Variable::Null) => true,
+        (Variable::Bool(x), Variable::Bool(y)) => x == y,
+        (Variable::String(x), Variable::String(y)) => x == y,
+        (Variable::Number(x), Variable::Number(y)) => {
+            let xi = x.is_i64() || x.is_u64();
+            let yi = y.is_i64() || y.is_u64();
+            if xi || yi {
+                xi && yi && x.to_string() == y.to_string()
+            } else {
+                match (x.as_f64(), y.as_f64()) {
+                    (Some(f), Some(g)) => (ordered(f) as i128 - ordered(g) as i128).abs() <= 2,
+                    _ => false,
+                }
+            }
+        }
+        (Variable::Array(x), Variable::Array(y)) => x.len() == y.len() && x.iter().zip(y.iter()).all(|(p, q)| strict_eq(p, q)),
+        (Variable::Object(x), Variable::Object(y)) => {
+            x.len() == y.len() && x.iter().zip(y.iter()).all(|((k1, v1), (k2, v2))| k1 == k2 && strict_eq(v1, v2))
+        }
+        _ => false,
+    }
+}
+
 pub fn run_case(case: &Value) -> Value {
     let mut obs = case.clone();
     let text = uncps(&case["text"]);
@@ -46,6 +73,10 @@ pub fn run_case(case: &Value) -> Value {
         let reparsed = Variable::from_json(&printed);
         let reparse_equal = reparsed.as_ref().map(|r| r == &*res).unwrap_or(false);
         let reprint_same_text = reparsed.as_ref().map(|r| r.to_string() == printed).unwrap_or(false);
+        // strict comparison of the re-parsed value (`==` on values is tolerant on numbers): node by node through the tagged form
+        let reparse_text_equal = reparsed.as_ref().map(|r| strict_eq(r, &res)).unwrap_or(false);
+        // the two printing routes (Display and the Serialize impl through serde_json) must produce the same text
+        let print_routes_agree = serde_json::to_string(&*res).map(|t| t == printed).unwrap_or(false);
         // serde_json::Value bridge, both directions, against serde_json's own reading of the same text
         let sj: Option<Value> = serde_json::from_str(&text).ok();
         let to_value = serde_json::to_value(&*res).ok();
@@ -62,7 +93,7 @@ pub fn run_case(case: &Value) -> Value {
             match s.parse::<f64>() { Ok(f) => json!({"bits":limbs(f.to_bits()),"finite":f.is_finite()}), Err(_) => json!({"bits":[0,0,0,0],"finite":false}) }
         }).collect()).unwrap_or_default();
         json!({"printed":cps(&printed),"value":to_tagged(&res),"nums":nums,"want":want,
-               "reparse_equal":reparse_equal,"reprint_same_text":reprint_same_text,
+               "reparse_equal":reparse_equal,"reprint_same_text":reprint_same_text,"reparse_text_equal":reparse_text_equal,"print_routes_agree":print_routes_agree,
                "bridge_to":bridge_to,"bridge_from":bridge_from,"bridge_deser":bridge_deser})
     });
     obs.as_object_mut().unwrap().insert("out".into(), out);
